@@ -8,18 +8,24 @@ import random
 import common
 from common import cps
 from props import c19_proxy
+from props import c19_tr
 
 ID = "C19"
 LEAN_MODEL_TARGETS = ["drv_c19"]
-LEAN_PROOF_TARGETS = ["PyroProps.C19"]
+LEAN_PROOF_TARGETS = ["PyroProps.C19Src", "PyroProps.C19"]      # C19Src imports C19: the audit sees both
 AUDIT_FILES = ["PyroModel/Uri.lean", "PyroModel/Gen/C19.lean", "PyroProofs/UriLemmas.lean",
-               "PyroProofs/UriParse.lean", "PyroProps/C19.lean"]
+               "PyroProofs/UriParse.lean", "PyroProps/C19.lean",
+               "PyroModel/UriPy.lean", "PyroModel/UriSrc.lean", "PyroProps/C19Src.lean"]
 THEOREMS = ["Pyro.C19.C19_parse_valid", "Pyro.C19.C19_reparse", "Pyro.C19.C19_roundtrip",
             "Pyro.C19.C19_fixpoint", "Pyro.C19.C19_text_injective", "Pyro.C19.C19_eq_hash",
             "Pyro.C19.C19_unequal_locations", "Pyro.C19.C19_transport", "Pyro.C19.C19_state_transport", "Pyro.C19.C19_proxy_history", "Pyro.C19.C19_int_roundtrip",
             "Pyro.C19.C19_roundtrip_guarded", "Pyro.C19.C19_unguarded_fails",
-            "Pyro.C19.C19_roundtrip_unguarded_false", "Pyro.C19.C19_gen_facts"]
-SUITES = ["parse", "eq", "int", "proxy"]
+            "Pyro.C19.C19_roundtrip_unguarded_false", "Pyro.C19.C19_gen_facts",
+            # round 5: the transcription of _parseLocation / location = the model, property restated about it
+            "Pyro.C19.C19_parseLocation_translated", "Pyro.C19.C19_location_translated",
+            "Pyro.C19.C19_source_parse", "Pyro.C19.C19_source_roundtrip", "Pyro.C19.C19_source_unequal_locations",
+            "Pyro.C19.C19_valid_iff_accepted", "Pyro.C19.C19_eq_iff_text"]
+SUITES = ["parse", "eq", "int", "proxy", "src", "ploc"]
 RULE = ("strings generated from the URI grammar (three protocols in random letter case; object names with @ and "
         "punctuation; tag lists with empty/duplicate/@ tags; hostnames, IPv4, bracketed IPv6 with garbage, empty and "
         "socket-prefix-like hosts; ports in every ASCII form int() accepts or refuses; default ports with several "
@@ -270,6 +276,9 @@ def _facts():
         # the two parse-time guards: present iff the behaviour is (both witnesses of each are refused)
         "guard_host": _raises(URI, errors, "PYRO:o@:55") and _raises(URI, errors, "PYRONAME:x@./u"),
         "guard_tags": _raises(URI, errors, "PYROMETA:,") and _raises(URI, errors, "PYROMETA:b,a@"),
+        # round 5: URI._parseLocation and the `location` property TRANSCRIBED from the source (c19_tr.py; raises
+        # Untranslatable -> the runner reports a broken tie and searches with the oracle)
+        "src": c19_tr.translate_uri(core, errors),
     }
 
 
@@ -280,6 +289,7 @@ def extract():
     lst = lambda items: "[\n  " + ",\n  ".join(items) + "]"
     return f"""-- GENERATED by harness/props/c19.py from {f['path']} / client.py (probed on the imported classes) — do not edit
 import PyroModel.Uri
+import PyroModel.UriPy
 namespace Pyro.Gen.C19
 open Pyro.Uri
 /-- URI.uriRegEx.pattern / .flags (32 = re.UNICODE only, i.e. no flags given) -/
@@ -308,6 +318,13 @@ def proxyStateIsText : Bool := {b(f['proxy_text'])}
 /-- does every installed serializer deliver a URI object (PYRO, PYRONAME, PYROMETA) as an equal URI — up to the list type
     that a codec without a set type (probed on a plain set) gives the tags ? -/
 def uriStateTravels : Bool := {b(f['state_ok'])}
+
+/-! ### transcribed from the source by harness/props/c19_tr.py (shallow embedding over PyroModel/UriPy.lean):
+    `URI._parseLocation(self, location, defaultPort)` and the property `URI.location`.
+    Locals are substituted away, `v<n>` are binders of the translator, `p<n>` the parameters; private helpers inlined,
+    module constants resolved, early-return / else forms normalised.  PyroProps/C19Src.lean proves them equal to the
+    hand-written `Uri.parseLocation` / `Uri.renderLoc` for all inputs. -/
+{f['src']}
 end Pyro.Gen.C19
 """
 
@@ -819,9 +836,13 @@ def _run(ctx, name, n, do_model, transport_every):
         if do_model and lines:
             outs = common.run_driver("drv_c19", lines)
             ctx.corr_cases += len(lines)
-            for c, l, r, m in zip(kept, lines, reals, outs):
+            for c, l, r, out in zip(kept, lines, reals, outs):
+                # answer = <hand-written model> ## <source-derived functions (transcribed _parseLocation / location)>
+                m, _, src = out.partition(" ## ")
                 if r != m and len(ctx.mismatches) < 200:
                     ctx.mismatch("parse", {"line": l, "case": c}, r[:400], m[:400])
+                if r != src and len(ctx.mismatches) < 200:
+                    ctx.mismatch("src", {"line": l, "case": c}, r[:400], src[:400])
         del lines[:], reals[:], kept[:]
     old_port = config.NS_PORT
     ns = nameserver.NameServer()
@@ -935,8 +956,51 @@ def _int_suite(ctx, n):
             ctx.mismatch("int", {"line": l, "case": c}, r, m)
 
 
+def _ploc_suite(ctx, n):
+    """the real URI._parseLocation(location, defaultPort) on a blank instance vs its transcription (driver op `l`):
+    locations from the grammar (incl. None / ''), 0-2 edits; defaultPort None, 0 and positive ints"""
+    URI, errors, config = _mods()
+    rng = ctx.sub_rng("ploc")
+    lines, reals, kept = [], [], []
+    fixed = [(None, None), (None, 9090), ("", None), ("", 0), ("h", None), ("h", 0), ("h:", 7), ("[::1]", None),
+             ("[::1]:", 5), ("./u:s", None), ("./u", 9090), (":5", None), ("h:0", 1)]
+    for i in range(n):
+        if i < len(fixed):
+            loc, dp = fixed[i]
+        else:
+            loc = _gen_location(rng)[1:]
+            for _ in range(rng.choice([0, 0, 0, 1, 1, 2])):
+                loc = _edit(rng, loc)
+            if rng.random() < 0.03:
+                loc = None
+            dp = rng.choice([None, None, 0, 1, 9090, 65535])
+        if loc is not None and not in_model_domain(loc):
+            continue
+        u = URI.__new__(URI)
+        u.sockname = u.host = u.port = None
+        try:
+            u._parseLocation(loc, dp)
+            port = u.port
+            ps = "N" if port is None else str(port) if type(port) is int else "s:" + cps(port) if isinstance(port, str) else "?"
+            r = "ok sock=%s host=%s port=%s" % (_txt(u.sockname), _txt(u.host), ps)
+        except errors.PyroError as x:
+            r = "err " + err_kind(x)
+        except Exception as x:
+            r = "exc " + type(x).__name__
+        lines.append("l %s %s" % ("N" if dp is None else dp, "N" if loc is None else cps(loc)))
+        reals.append(r)
+        kept.append({"location": loc, "defaultPort": dp})
+        ctx.count("ploc:" + r.split(" ")[0] + ("/" + r.split(" ")[1] if not r.startswith("ok") else ""))
+    outs = common.run_driver("drv_c19", lines)
+    ctx.corr_cases += len(lines)
+    for c, l, r, m in zip(kept, lines, reals, outs):
+        if r != m and len(ctx.mismatches) < 200:
+            ctx.mismatch("ploc", {"line": l, "case": c}, r, m)
+
+
 def correspondence(ctx):
     _run(ctx, "corr", ctx.n(40000, 2000000), True, ctx.n(40, 60))
+    _ploc_suite(ctx, ctx.n(4000, 100000))
     _eq_suite(ctx, ctx.n(3000, 100000))
     _int_suite(ctx, ctx.n(6000, 200000))
     c19_proxy.history_suite(ctx, "proxy", ctx.n(600, 12000), True)
